@@ -34,19 +34,33 @@ type C19Inj struct {
 
 // C19Live is a liveness case.
 type C19Live struct {
-	N         int      `json:"n"`
-	SRIH      bool     `json:"srih,omitempty"`
-	PoolFirst bool     `json:"pool_first,omitempty"`
-	Order     int      `json:"order"` // 0: pending messages are delivered FIFO, 1: LIFO (both deliver everything before any timer)
-	Lim       C19Lim   `json:"lim"`   // small block limits (zero value: defaults)
-	Pools     [][]int  `json:"pools"`
-	Skew      []int    `json:"skew_ms,omitempty"`
-	Inj       []C19Inj `json:"inj,omitempty"`
-	Prefix    []C19Ev  `json:"prefix,omitempty"` // adversarial prefix (recovery check only)
+	N         int       `json:"n"`
+	Shift     *C19Shift `json:"shift,omitempty"` // the validator set changes inside the run (N = 6 nodes: the whole committee)
+	SRIH      bool      `json:"srih,omitempty"`
+	PoolFirst bool      `json:"pool_first,omitempty"`
+	Order     int       `json:"order"` // 0: pending messages are delivered FIFO, 1: LIFO (both deliver everything before any timer)
+	Lim       C19Lim    `json:"lim"`   // small block limits (zero value: defaults)
+	Pools     [][]int   `json:"pools"`
+	Skew      []int     `json:"skew_ms,omitempty"`
+	Inj       []C19Inj  `json:"inj,omitempty"`
+	Prefix    []C19Ev   `json:"prefix,omitempty"` // adversarial prefix (recovery check only)
+	// a storyline as the adversarial prefix (recovery check only; constant validator set): phases of verif_c19_story_test.go
+	Story    string         `json:"story,omitempty"`
+	AutoZero bool           `json:"auto_zero,omitempty"` // during the storyline: a timer armed with zero delay fires at once
+	Roles    map[string]int `json:"roles,omitempty"`
+	Steps    []C19Ph        `json:"steps,omitempty"`
+	// key of a listed known finding whose shape the generator would have drawn here and did not (counted as excluded)
+	Skipped string `json:"skipped_known,omitempty"`
 }
+
+// C19KnownHiddenRecovery: key of the finding "the extensible pool hides the repeated recovery message".
+const C19KnownHiddenRecovery = "extpool-hides-repeated-recovery-message"
 
 func c19GenLiveBase(t *rapid.T) C19Live {
 	c := C19Live{N: rapid.SampledFrom([]int{4, 4, 7}).Draw(t, "n")}
+	if rapid.Bool().Draw(t, "shifted") {
+		c.N, c.Shift = c19ShiftNodes, c19GenShift(t)
+	}
 	c.SRIH = rapid.Bool().Draw(t, "srih")
 	c.PoolFirst = rapid.Bool().Draw(t, "poolfirst")
 	c.Order = rapid.IntRange(0, 1).Draw(t, "order")
@@ -59,6 +73,9 @@ func c19GenLiveBase(t *rapid.T) C19Live {
 		c.Pools = c19GenPools(t, c.N)
 	default:
 		c.Pools = c19GenPools(t, c.N)
+	}
+	if c.Shift != nil {
+		c.Lim.SizeTxs = 0 // calibrated for a fixed number of block signatures
 	}
 	if rapid.Bool().Draw(t, "skewed") {
 		c.Skew = rapid.SliceOfN(rapid.SampledFrom([]int{0, 0, 1, 500, 3000}), c.N, c.N).Draw(t, "skew")
@@ -78,6 +95,20 @@ func c19GenLive(t *rapid.T) C19Live { return c19GenLiveBase(t) }
 
 func c19GenRecovery(t *rapid.T) C19Live {
 	c := c19GenLiveBase(t)
+	// While the finding is listed as known its shape is not drawn (the probe TestKnownFindings re-confirms it from
+	// its recorded case); a random prefix that reaches it all the same is counted as excluded by the check.
+	storied := c.N == 4 && c.Shift == nil && rapid.IntRange(0, 3).Draw(t, "storied") == 0
+	if storied && vt.Known(C19KnownHiddenRecovery) {
+		storied, c.Skipped = false, C19KnownHiddenRecovery
+	}
+	if storied {
+		st := C19Story{N: 4, Kind: "hidden-recovery", AutoZero: rapid.Bool().Draw(t, "autozero")}
+		c19GenStoryHiddenRecovery(t, &st)
+		c.Story, c.AutoZero, c.Roles, c.Steps = st.Kind, st.AutoZero, st.Roles, st.Steps
+		c.Lim = C19Lim{}
+		c.Pools = c19GenStoryPools(t, c.N)
+		return c
+	}
 	np := rapid.IntRange(10, 150).Draw(t, "nprefix")
 	c.Prefix = rapid.SliceOfN(rapid.Custom(c19GenEv(c.N)), np, np).Draw(t, "prefix")
 	return c
@@ -86,6 +117,7 @@ func c19GenRecovery(t *rapid.T) C19Live {
 type c19LiveResult struct {
 	net       *c19Net
 	shortfall string // non-empty: the liveness claim failed in this run
+	resumed   bool   // after a shortfall that follows a prefix: blocks appeared once duplicates passed the pools
 	events    int
 	prefixEv  int
 	k         int
@@ -117,7 +149,7 @@ func (net *c19Net) earliest() *c19Node {
 
 // c19RunLive executes one liveness run. err is a safety violation / harness trouble; res.shortfall a liveness shortfall.
 func c19RunLive(c C19Live) (res c19LiveResult, err error) {
-	w, err := c19GetWorld(c.N, c.SRIH)
+	w, err := c19GetWorld(c.N, c.SRIH, c.Shift)
 	if err != nil {
 		return res, fmt.Errorf("HARNESS: world: %w", err)
 	}
@@ -125,7 +157,7 @@ func c19RunLive(c C19Live) (res c19LiveResult, err error) {
 	res.net = net
 	defer net.close()
 	if err != nil {
-		return res, fmt.Errorf("HARNESS: network: %w", err)
+		return res, c19NetErr(net, err)
 	}
 	if err := net.start(); err != nil {
 		return res, err
@@ -143,6 +175,31 @@ func c19RunLive(c C19Live) (res c19LiveResult, err error) {
 		}
 		res.prefixEv++
 	}
+	if len(c.Steps) > 0 {
+		if c.Shift != nil {
+			return res, fmt.Errorf("bad case: storyline in a world whose validators change")
+		}
+		net.autoZero = c.AutoZero
+		if net.autoZero {
+			if err := net.autoFire(); err != nil {
+				return res, err
+			}
+		}
+		s, err := c19NewStoryRun(net, w, c.N)
+		if err != nil {
+			return res, err
+		}
+		n, all, err := s.runSteps(c.Steps)
+		res.prefixEv += n
+		if err != nil {
+			return res, err
+		}
+		if all {
+			net.label("story=" + c.Story + ": every phase reached")
+		}
+		net.autoZero = false
+	}
+	async := len(c.Prefix) > 0 || len(c.Steps) > 0
 	for _, n := range net.nodes {
 		if n.silent {
 			n.silent = false
@@ -168,6 +225,9 @@ func c19RunLive(c C19Live) (res c19LiveResult, err error) {
 	res.k = K
 	start, _ := net.maxHeight()
 	target := start + uint32(K)
+	if w.refresh != 0 && !async && target < w.refresh+2 {
+		return res, fmt.Errorf("HARNESS: the synchronous phase (heights %d..%d) does not cross the validator change at %d", start+1, target, w.refresh)
+	}
 	net.logf("=== synchronous phase: from height %d to %d, %d pending ===", start, target, len(net.pending))
 	N := c.N
 	bound := 10*(K*((2*N+2)*(N-1))+K) + 3*len(net.pending)
@@ -249,6 +309,44 @@ func c19RunLive(c C19Live) (res c19LiveResult, err error) {
 			return res, err
 		}
 	}
+	if res.shortfall != "" && async {
+		// Why does it stall? The same network goes on under synchrony, but from now on a payload the receiver's
+		// extensible pool already holds is handed to its consensus service again (the only difference: the pools'
+		// de-duplication is bypassed). If blocks appear now, the stall was made by the pools hiding the repeated
+		// (byte-identical) recovery messages of committed nodes from a consensus that could not use them the first
+		// time; if not, it is the view lock of dBFT 2.0 itself.
+		h0 := net.minHeight()
+		net.logf("=== stalled at %v; synchrony continues with the pools' de-duplication bypassed ===", net.heights())
+		net.bypassDedup = true
+		for ev := 0; ev < bound && net.minHeight() < h0+2 && net.deliveries < 3*c19MaxDeliveries; ev++ {
+			if len(net.pending) > 0 {
+				if err := net.deliver(net.take(0)); err != nil {
+					return res, err
+				}
+				continue
+			}
+			if mh, best := net.maxHeight(); net.minHeight() < mh {
+				for _, n := range net.nodes {
+					if n.bc.BlockHeight() < mh {
+						if _, err := net.relay(best, n); err != nil {
+							return res, err
+						}
+						break
+					}
+				}
+				continue
+			}
+			n := net.earliest()
+			if n == nil {
+				break
+			}
+			if _, err := net.fire(n); err != nil {
+				return res, err
+			}
+		}
+		res.resumed = net.minHeight() > h0
+		net.logf("=== heights %v, resumed: %v ===", net.heights(), res.resumed)
+	}
 	if res.shortfall == "" {
 		have := map[util.Uint256]bool{}
 		bc := net.nodes[0].bc
@@ -283,8 +381,15 @@ func (net *c19Net) heights() []uint32 {
 }
 
 func c19CheckLive(c C19Live, o *vt.Obs) error {
-	if c.N != 4 && c.N != 7 {
-		return fmt.Errorf("bad case: n=%d", c.N)
+	if err := c19CheckN(c.N, c.Shift); err != nil {
+		return err
+	}
+	if c.Story != "" {
+		o.Label("story=" + c.Story)
+	}
+	if c.Skipped != "" {
+		o.Excluded()
+		o.Label("shape of known finding not drawn: " + c.Skipped)
 	}
 	res, err := c19RunLive(c)
 	o.Units(res.events + res.prefixEv)
@@ -293,7 +398,7 @@ func c19CheckLive(c C19Live, o *vt.Obs) error {
 		return nil
 	}
 	if res.net != nil {
-		w, _ := c19GetWorld(c.N, c.SRIH)
+		w, _ := c19GetWorld(c.N, c.SRIH, c.Shift)
 		c19Classify(res.net, o, w)
 		if len(c.Prefix) > 0 {
 			h, _ := res.net.maxHeight()
@@ -308,13 +413,27 @@ func c19CheckLive(c C19Live, o *vt.Obs) error {
 		c19Record(c, res.net, "ok")
 		return nil
 	}
-	if len(c.Prefix) > 0 {
+	if res.resumed {
+		// Not the view lock of the library: with the same messages handed to it (again) the consensus goes on. The
+		// messages were delivered, the node's own network layer (extpool.Pool.Add / Server.handleExtensibleCmd)
+		// kept them from its consensus because it had seen the same bytes before.
+		if vt.Known(C19KnownHiddenRecovery) {
+			o.Excluded()
+			o.Label("known: " + C19KnownHiddenRecovery)
+			c19Record(c, res.net, "known")
+			return nil
+		}
+		c19Record(c, res.net, "SHORTFALL")
+		res.net.logf("LIVENESS %s", res.shortfall)
+		return fmt.Errorf("liveness under synchrony after an asynchronous period: all validators honest, every message delivered, timers firing, but %s; as soon as a payload that the receiver's extensible pool already holds is handed to its consensus service again, blocks are produced (heights %v): the pools hide the byte-identical recovery message a committed node repeats on every timeout from a consensus that could not use its preparations when it came first%s", res.shortfall, res.net.heights(), res.net.history(120))
+	}
+	if len(c.Prefix) > 0 || len(c.Steps) > 0 {
 		// dBFT 2.0 is not live after a period of asynchrony: a node may request a view change, then still
 		// prepare and commit in the old view while its request moves others to the next view; committed nodes
 		// never change view, and neither view can reach M any more (see dbft's formal-models/README.md,
 		// "liveness locks"). The property claims liveness under synchrony only, so a shortfall after an
 		// adversarial prefix is counted, not reported; the run still served the safety oracle.
-		o.Label("lock-after-asynchrony (not claimed)")
+		o.Label("lock-after-asynchrony: persists when duplicates pass the pools (dBFT view lock, not claimed)")
 		c19Record(c, res.net, "lock")
 		return nil
 	}
